@@ -100,17 +100,26 @@ def device_frames(ctx: Ctx):
         d = AC(ip="10.0.0.1", port=6444, device_id=ctx.rng.getrandbits(48))
         rng = ctx.rng
 
+        raised = []
+
+        async def op(name, coro):
+            try:
+                await coro
+            except Exception as e:  # noqa: BLE001 - code under test
+                raised.append((name, type(e).__name__, str(e)[:80]))
+
         async def go():
             if ver == 3:
-                await d.authenticate(tok, key)
-            await d.get_capabilities()
-            await d.refresh()
-            await d.toggle_display()
+                await op("authenticate", d.authenticate(tok, key))
+            await op("get_capabilities", d.get_capabilities())
+            await op("refresh", d.refresh())
+            await op("toggle_display", d.toggle_display())
             d.beep = True
-            await d.toggle_display()
-            await d.start_self_clean()
+            await op("toggle_display", d.toggle_display())
+            await op("start_self_clean", d.start_self_clean())
             for _ in range(ctx.pick(25, 300)):
-                c10.apply_state(AC, d, c10.rand_state(rng))
+                st = c10.rand_state(rng)
+                c10.apply_state(AC, d, st)
                 r = rng.random()
                 if r < 0.3:
                     d.vertical_swing_angle = rng.choice(list(AC.SwingAngle))
@@ -123,8 +132,11 @@ def device_frames(ctx: Ctx):
                 if r > 0.6:
                     rng.choice([lambda v: setattr(d, "breeze_away", v), lambda v: setattr(d, "breeze_mild", v),
                                 lambda v: setattr(d, "breezeless", v)])(rng.choice([False, True]))
-                await d.apply()
-                await d.refresh()
+                n0 = len(raised)
+                await op("apply", d.apply())
+                if len(raised) > n0:
+                    raised[-1] = raised[-1] + (st,)
+                await op("refresh", d.refresh())
 
         vloop.run(loop, go())
         prev = -1
@@ -142,7 +154,8 @@ def device_frames(ctx: Ctx):
                 v["beep"] = bool(info)
             prev = f[-3]
             out.append(v)
-        assert len([r for r in dev.rx if r.get("frame") is not None]) == len(ac.log)
+        for r in raised:
+            out.append(dict(kind="raised", frame=[], prev=-1, exc=f"{r[0]}: {r[1]} {r[2]}", via=f"device-v{ver}", detail=list(r[3:])))
     return out
 
 
@@ -160,7 +173,7 @@ def run(ctx: Ctx) -> int:
     tlc_in = []
     for v in allv:
         if v["exc"] != "none":
-            ctx.violation("tobytes() raised for an in-domain command", v["exc"], v)
+            ctx.violation("emitting an in-domain command raised", v["exc"], v)
             continue
         w = dict(v)
         if w.get("writes") == "skip":
